@@ -83,8 +83,26 @@ func oracleC05JSONShape(o OSM, dropVersion bool) {
 		vAssert(back.Notes[0].DateCreated.Equal(o.Notes[0].DateCreated.Time))
 	}
 	vAssert(back.Generator == o.Generator && back.Copyright == o.Copyright && back.Attribution == o.Attribution && back.License == o.License)
+	// every element is the one written at its position, nothing of an earlier element shows up in a
+	// later one (ids, versions, users, tags; text fields compared when they are plain)
+	for i := range o.Nodes {
+		if i < len(back.Nodes) {
+			a, b := o.Nodes[i], back.Nodes[i]
+			vAssert(a.ID == b.ID && a.Version == b.Version && a.UserID == b.UserID && a.ChangesetID == b.ChangesetID && a.Visible == b.Visible && (!c05DistinctKeys(a.Tags) || len(a.Tags) == len(b.Tags)))
+			if c04Plain(a.User) {
+				vAssert(a.User == b.User)
+			}
+		}
+	}
+	for i := range o.Relations {
+		if i < len(back.Relations) {
+			a, b := o.Relations[i], back.Relations[i]
+			vAssert(a.ID == b.ID && a.Version == b.Version && a.UserID == b.UserID && a.ChangesetID == b.ChangesetID && len(a.Members) == len(b.Members) && (!c05DistinctKeys(a.Tags) || len(a.Tags) == len(b.Tags)))
+		}
+	}
 	for i := range o.Ways {
 		if i < len(back.Ways) {
+			vAssert(o.Ways[i].ID == back.Ways[i].ID && o.Ways[i].Version == back.Ways[i].Version && o.Ways[i].UserID == back.Ways[i].UserID && (!c05DistinctKeys(o.Ways[i].Tags) || len(o.Ways[i].Tags) == len(back.Ways[i].Tags)))
 			vAssert(len(back.Ways[i].Nodes) == len(o.Ways[i].Nodes))
 			for j := range o.Ways[i].Nodes {
 				if j < len(back.Ways[i].Nodes) {
@@ -93,6 +111,18 @@ func oracleC05JSONShape(o OSM, dropVersion bool) {
 			}
 		}
 	}
+}
+
+// a tag list with repeated keys is not an osmjson tags object (keys of an object are unique)
+func c05DistinctKeys(tags Tags) bool {
+	seen := map[string]bool{}
+	for _, t := range tags {
+		if seen[t.Key] {
+			return false
+		}
+		seen[t.Key] = true
+	}
+	return true
 }
 
 func toSlice(x interface{}) []interface{} {
